@@ -30,12 +30,14 @@ THEOREMS = [
     "TornadoModel.C42.wait_for_exit_signal_death",
     "TornadoModel.C42.goodN_step",
     "TornadoModel.C42.goodN_after",
-    "TornadoModel.C42.exit_reported_at_most_once",
+    "TornadoModel.C42.every_invocation_carries_the_code",
     "TornadoModel.C42.callback_exactly_once_any_regs",
     "TornadoModel.C42.drain_fires_installed_callback",
     "TornadoModel.C42.registration_after_exit",
-    "TornadoModel.C42.reregistration_after_report_never_fires",
-    "TornadoModel.C42.reregistration_after_report_fires_refuted",
+    "TornadoModel.C42.late_registration_fires",
+    "TornadoModel.C42.every_wait_future_settles_partial",
+    "TornadoModel.C42.every_wait_future_settles_refuted",
+    "TornadoModel.C42.returncode_initialized",
 ]
 TRUSTED = [
     "os.waitpid(pid, WNOHANG) contract (0 for running, (pid,status) once for a zombie, ChildProcessError afterwards) as simulated by the harness; Linux wait-status macros",
@@ -43,22 +45,26 @@ TRUSTED = [
     "kernel SIGCHLD delivery (at least one delivery after the last exit; coalescing) is an event of the model",
 ]
 ASSUMPTIONS = [
-    "the oracle demands exactly-once for children with exactly one registration; for several registrations (a later set_exit_callback replaces the earlier one) the theorems callback_exactly_once_any_regs / exit_reported_at_most_once cover the model, the oracle only demands at most one invocation per child in total, and a registration made after the exit was reported is never called (reregistration_after_report_never_fires: behaviour of the code as it is, outside the property)",
+    "set_exit_callback has 'set' semantics: a callback registered with set_exit_callback and replaced by a later registration before the exit was reported is not demanded to run (a replaced wait_for_exit future IS demanded to resolve: known finding script/future-replaced)",
     "nobody else reaps the child (Popen.wait/poll are not used concurrently)",
     "wait statuses are 16-bit; stopped/continued statuses (low 7 bits = 127) are never returned by waitpid(pid, WNOHANG): they hit `assert os.WIFEXITED` and are in the correspondence stream only",
     "callbacks do not raise and do not re-register",
+    "the oracle demands the exact invocation count only once the kernel's guarantee holds for the history (the SIGCHLD handler has run at some point after the exit: Spec.Delivered) and the loop has drained; `exit, register, drain` without any SIGCHLD is a prefix of a real history and is only model-compared (theorem callback_exactly_once_any_regs covers it: Noticed)",
 ]
 RULE = ("histories over {exit c status, register c mode, sigchld, drain}; complete enumeration for <=3 children with at most "
-        "one exit and one registration each, every history closed by a final drain; random stream adds raw statuses, "
-        "re-registration, duplicate exits, 4 children; non-trivial = some child both exits and is registered")
+        "one exit and one registration each, and for one child with up to three registrations (replacement before the "
+        "report, registration after it), every history closed by a final drain; random streams add raw statuses, "
+        "re-registration, registrations after the report, duplicate exits, 4 children; non-trivial = some child both exits "
+        "and is registered")
 EXHAUSTIVE = {"quick": True, "thorough": True}
 CLAUSES = {
-    "exit callback runs exactly once, for any timing of the exit relative to registration": "callback_exactly_once, callback_at_most_once; any number of registrations: callback_exactly_once_any_regs, exit_reported_at_most_once, drain_fires_installed_callback, registration_after_exit",
-    "re-registration after the first callback fired": "reregistration_after_report_never_fires (the late callback is never called, a late wait_for_exit future stays pending, the child stays in _waiting); the wish that it fires is refuted: reregistration_after_report_fires_refuted",
-    "with the exit status (negative signal number for signals)": "status_decoding, callback_exactly_once",
-    "wait_for_exit resolves with that status or raises CalledProcessError for non-zero statuses when raise_error is set": "wait_for_exit_outcome, wait_for_exit_signal_death (signal deaths: CalledProcessError(-sig) with raise_error, result -sig without)",
-    "no leak (a reported child leaves _waiting and the loop queue, and has been reaped)": "reported_child_released",
+    "exit callback runs exactly once, for any timing of the exit relative to registration": "one registration: callback_exactly_once, callback_at_most_once; any number of registrations: callback_exactly_once_any_regs (>=1 invocation, all with the code, no registration twice), every_invocation_carries_the_code, drain_fires_installed_callback (which one reports), registration_after_exit",
+    "registration (set_exit_callback / wait_for_exit) made after the exit was already reported": "late_registration_fires (fixed in tornado: the callback is scheduled with the stored returncode; called exactly once, future settled, nothing stored in _waiting/_exit_callback)",
+    "with the exit status (negative signal number for signals)": "status_decoding, callback_exactly_once, every_invocation_carries_the_code",
+    "wait_for_exit resolves with that status or raises CalledProcessError for non-zero statuses when raise_error is set": "wait_for_exit_outcome, wait_for_exit_signal_death (signal deaths: CalledProcessError(-sig) with raise_error, result -sig without); registration after the report: late_registration_fires; a wait_for_exit future REPLACED by a later registration before the report never resolves: every_wait_future_settles_partial (one registration) / every_wait_future_settles_refuted — known finding script/future-replaced",
+    "no leak (a reported child leaves _waiting and the loop queue, and has been reaped)": "reported_child_released (one registration); late_registration_fires (a late registration stores nothing). tie only: a registration made between the reap and _set_returncode leaves the pid in _waiting (model-compared, not demanded)",
     "several concurrent children": "view_step (per-child projection: other children's events do not interfere) + tie",
+    "`_exit_callback` is cleared before the callback runs": "tie only for the order inside _set_returncode (the model's Call.cleared is the literal `true` there; the harness observes `_exit_callback is None` inside every callback); for late callbacks the model computes it from the state and late_registration_fires proves it",
 }
 PARALLEL = False
 CASE_TIMEOUT = 90
@@ -117,6 +123,69 @@ def _enum_cases(n, maxlen):
         yield {"kind": "script", "n": n, "ops": _concretise(seq, k) + [["drain"]], "enum": True}
 
 
+def _enum_rereg_histories(maxlen, maxregs=3):
+    """one child, exit at most once, up to `maxregs` registrations, sigchld, drain"""
+    def rec(seq, nreg, exited):
+        yield list(seq)
+        if len(seq) >= maxlen:
+            return
+        for a in ("exit", "reg", "sigchld", "drain"):
+            if a == "exit":
+                if exited:
+                    continue
+                seq.append(a); yield from rec(seq, nreg, True); seq.pop()
+            elif a == "reg":
+                if nreg >= maxregs:
+                    continue
+                seq.append(a); yield from rec(seq, nreg + 1, exited); seq.pop()
+            else:
+                if len(seq) >= 2 and seq[-1] == a and seq[-2] == a:
+                    continue
+                seq.append(a); yield from rec(seq, nreg, exited); seq.pop()
+    yield from rec([], 0, False)
+
+
+def _enum_rereg_cases(maxlen):
+    k = 0
+    for seq in _enum_rereg_histories(maxlen):
+        if seq.count("reg") < 2:
+            continue
+        k += 1
+        st = GOOD_STATUSES[k % len(GOOD_STATUSES)]
+        ops, j = [], 0
+        for a in seq:
+            if a == "exit":
+                ops.append(["exit", 0, st])
+            elif a == "reg":
+                ops.append(["reg", 0, MODES[(k // (3 ** j)) % 3]])
+                j += 1
+            else:
+                ops.append([a])
+        yield {"kind": "script", "n": 1, "ops": ops + [["drain"]], "enum": True}
+
+
+def _late_case(rng):
+    """registrations after the report (and replacements before it), several children, always settled at the end"""
+    n = rng.randint(1, 3)
+    ops = []
+    for c in range(n):
+        for _ in range(rng.choice([1, 1, 2])):
+            ops.append(["reg", c, rng.choice(MODES)])
+    exits = [["exit", c, rng.choice(GOOD_STATUSES)] for c in range(n) if rng.random() < 0.9]
+    ops += exits
+    rng.shuffle(ops)
+    ops += rng.choice([[["sigchld"], ["drain"]], [["sigchld"]], [["drain"]], []])
+    for _ in range(rng.randint(1, 5)):
+        k = rng.random()
+        if k < 0.6:
+            ops.append(["reg", rng.randrange(n), rng.choice(MODES)])
+        elif k < 0.8:
+            ops.append(["sigchld"])
+        else:
+            ops.append(["drain"])
+    return {"kind": "script", "n": n, "ops": ops + [["sigchld"], ["drain"]]}
+
+
 def _rand_case(rng):
     n = rng.randint(1, 4)
     ops = []
@@ -172,16 +241,22 @@ def gen_cases(rng, tier):
         yield from _enum_cases(1, 7)
         yield from _enum_cases(2, 6)
         yield from _enum_cases(3, 4)
+        yield from _enum_rereg_cases(6)
         for _ in range(1500):
             yield _rand_case(rng)
+        for _ in range(1000):
+            yield _late_case(rng)
         for _ in range(1500):
             yield _single_reg_case(rng)
     elif tier == "thorough":
         yield from _enum_cases(1, 9)
         yield from _enum_cases(2, 7)
         yield from _enum_cases(3, 6)
+        yield from _enum_rereg_cases(8)
         for _ in range(15000):
             yield _rand_case(rng)
+        for _ in range(10000):
+            yield _late_case(rng)
         for _ in range(15000):
             yield _single_reg_case(rng)
         for _ in range(25):
@@ -191,6 +266,8 @@ def gen_cases(rng, tier):
             yield _rand_case(rng)
         for _ in range(3000):
             yield _single_reg_case(rng)
+        for _ in range(2000):
+            yield _late_case(rng)
 
 
 # --------------------------------------------------------------------------- implementation runner (stub tier)
@@ -200,8 +277,9 @@ def _run_script(case):
     n = case["n"]
     kstate = ["running"] * n
     kstatus = [None] * n
-    calls, errors, wp = [], [], []
+    calls, call_at, errors, wp = [], [], [], []
     regno = [0]
+    cur = [0]
 
     def fake_waitpid(pid, options):
         c = pid - PID0
@@ -232,6 +310,7 @@ def _run_script(case):
 
             def wrapped(ret):
                 calls.append([me.pid - PID0, r, ret, me._exit_callback is None])
+                call_at.append(cur[0])
                 return callback(ret)
             super().set_exit_callback(wrapped)
 
@@ -244,7 +323,8 @@ def _run_script(case):
             tp.Subprocess._initialized = False
             try:
                 subs = [Sub(["true"]) for _ in range(n)]
-                for op in case["ops"]:
+                for opi, op in enumerate(case["ops"]):
+                    cur[0] = opi
                     try:
                         if op[0] == "exit":
                             if kstate[op[1]] == "running":
@@ -266,6 +346,7 @@ def _run_script(case):
                         errors.append("op %s: %s" % (op[0], type(e).__name__))
                 queued = len(lp._ready)
                 calls_now = [list(c) for c in calls]
+                call_at_now = list(call_at)
                 fout = []
                 for c, r, f in futs:
                     if not f.done():
@@ -293,7 +374,7 @@ def _run_script(case):
                 f.exception()          # mark retrieved (the loop's exit drain may settle futures late)
     finally:
         logging.disable(logging.NOTSET)
-    return {"calls": calls_now, "futs": fout, "returncodes": rcs, "waiting": waiting, "queued": queued,
+    return {"calls": calls_now, "call_at": call_at_now, "futs": fout, "returncodes": rcs, "waiting": waiting, "queued": queued,
             "errors": errors, "waitpids": len(wp)}
 
 
@@ -459,6 +540,13 @@ def _settled(ops, delivered_before_last):
 
 
 def spec_violation(case, impl, replies):
+    """the property applied to what the implementation did, for EVERY registration of every child:
+    always  - no registration's callback runs twice, no future settles twice, `_exit_callback` is None inside the callback,
+              every invocation / settled future carries the POSIX reading of the child's (first) exit status;
+    settled - (the SIGCHLD handler ran at some point after the exit and the loop has drained) every registration that was
+              not replaced by a later one before the exit was reported has been called exactly once (not at all if the
+              child has not exited) and its wait_for_exit future is settled; a wait_for_exit future that WAS replaced
+              must be settled too (property text: "wait_for_exit resolves with that status")."""
     if "infra" in impl:
         raise RuntimeError("real-children infrastructure: " + impl["infra"])
     ops = _ops(case, impl)
@@ -467,51 +555,78 @@ def spec_violation(case, impl, replies):
     expect, futexp = _plain(vals[0]), _plain(vals[1])
     delivered = _plain(parse_reply(replies[1])[1][2])
     n = _n(case)
-    if case["kind"] == "script":
+    script = case["kind"] == "script"
+    if script:
         if impl["errors"]:
             return "error: %s" % impl["errors"][0]
-        per_calls = [[c for c in impl["calls"] if c[0] == i] for i in range(n)]
-        per_futs = [[f for f in impl["futs"] if f[0] == i] for i in range(n)]
+        calls, futs = impl["calls"], impl["futs"]
+        call_at = impl.get("call_at") or [None] * len(calls)
     else:
-        per_calls = [[[i, 0, c, True] for c in k["calls"]] for i, k in enumerate(impl["kids"])]
-        per_futs = [[[i, 0, k["fut"]]] if k["fut"] not in (None, ["pending"]) else [] for i, k in enumerate(impl["kids"])]
+        # registration number of kid i in the linearisation `_real_ops` is i
+        calls, call_at, futs = [], [], []
+        for i, k in enumerate(impl["kids"]):
+            for c in k["calls"]:
+                calls.append([i, i, c, True]); call_at.append(None)
+            if k["fut"] not in (None, ["pending"]):
+                futs.append([i, i, k["fut"]])
+    regops = [(j, o) for j, o in enumerate(ops) if o[0] == "reg"]        # position r = registration number r
+    replaced_future = None
     for i in range(n):
-        regs = [o for o in ops if o[0] == "reg" and o[1] == i]
+        regs = [(r, j, o[2]) for r, (j, o) in enumerate(regops) if o[1] == i]
         exits = [o for o in ops if o[0] == "exit" and o[1] == i]
-        # at most once per registration, always
+        mine = [(c, at) for c, at in zip(calls, call_at) if c[0] == i]
         seen = {}
-        for c in per_calls[i]:
+        for c, _ in mine:
             seen[c[1]] = seen.get(c[1], 0) + 1
         if any(v > 1 for v in seen.values()):
             return "twice: exit callback of child %d ran %d times" % (i, max(seen.values()))
-        if len(per_calls[i]) > 1:
-            return "twice: exit of child %d reported by %d callback invocations in total" % (i, len(per_calls[i]))
-        if any(c[3] is not True for c in per_calls[i]):
+        if any(r not in [x[0] for x in regs] for r in seen):
+            return "twice: child %d reported through a callback that was never registered for it" % i
+        if any(c[3] is not True for c, _ in mine):
             return "not-cleared: exit callback of child %d was still registered while it ran" % i
-        if len(regs) != 1 or (exits and exits[0][2] % 128 == 127) or (exits and not 0 <= exits[0][2] < 65536):
+        if (exits and exits[0][2] % 128 == 127) or (exits and not 0 <= exits[0][2] < 65536):
             continue
-        mode = regs[0][2]
         want = expect[i]
-        # codes must be right whenever a callback ran; the count must be right once the history has settled
-        got = [c[2] for c in per_calls[i]] if (case["kind"] == "script" or mode == "cb") else None
-        if got is not None:
-            if got and (not want or got[0] != want[0]):
+        for c, _ in mine:
+            if not want or c[2] != want[0]:
                 return "code: child %d exit status %r reported as %r, should be %r" % (
-                    i, exits[0][2] if exits else None, got[0], want[0] if want else None)
-            if _settled(ops, delivered[i]) and len(got) != len(want):
-                return "count: exit callback of child %d ran %d times after settling, should be %d (%s)" % (
-                    i, len(got), len(want), "exit before registration" if exits and ops.index(exits[0]) < ops.index(regs[0]) else
-                    "exit after registration" if exits else "never exited")
-        if mode != "cb":
-            wantf = [f for f in futexp[i][0]] if futexp[i] else []
-            gotf = [f[2] for f in per_futs[i]]
-            if gotf and (not wantf or gotf[0] != wantf[0]):
-                return "future: wait_for_exit(%s) of child %d settled as %r, should be %r" % (mode, i, gotf[0], wantf[0] if wantf else "pending")
-            if _settled(ops, delivered[i]) and len(gotf) != len(wantf):
-                return "future-count: wait_for_exit(%s) of child %d %s" % (mode, i, "still pending after settling" if not gotf else "settled without an exit")
+                    i, exits[0][2] if exits else None, c[2], want[0] if want else None)
+        settled = _settled(ops, delivered[i])
+        ats = [at for _, at in mine if at is not None]
+        first_at = min(ats) if ats else None
+        for k, (r, j, mode) in enumerate(regs):
+            got = [c for c, _ in mine if c[1] == r]
+            gotf = [f[2] for f in futs if f[0] == i and f[1] == r]
+            wantf = [x for x in futexp[i][k] if x != "~"] if mode != "cb" else []
+            if len(gotf) > 1:
+                return "twice: wait_for_exit future of child %d settled %d times" % (i, len(gotf))
+            if gotf and (mode == "cb" or not wantf or gotf[0] != wantf[0]):
+                return "future: wait_for_exit(%s) of child %d settled as %r, should be %r" % (
+                    mode, i, gotf[0], wantf[0] if wantf else "pending")
+            if not settled:
+                continue
+            later = [j2 for (_, j2, _) in regs[k + 1:]]
+            replaced = script and any(first_at is None or j2 < first_at for j2 in later)
+            if len(regs) == 1:
+                where = ("exit before registration" if exits and ops.index(exits[0]) < j else
+                         "exit after registration" if exits else "never exited")
+            elif first_at is not None and j > first_at:
+                where = "registration after the report"
+            else:
+                where = "latest of several registrations"
+            if not replaced:
+                if (script or mode == "cb") and len(got) != len(want):
+                    return "count: exit callback of child %d (registration %d) ran %d times after settling, should be %d (%s)" % (
+                        i, r, len(got), len(want), where)
+                if mode != "cb" and len(gotf) != len(wantf):
+                    return "future-count: wait_for_exit(%s) of child %d %s [%s]" % (
+                        mode, i, "still pending after settling" if not gotf else "settled without an exit", where)
+            elif mode != "cb" and wantf and not gotf and replaced_future is None:
+                replaced_future = ("future-replaced: wait_for_exit(%s) future of child %d (registration %d) was replaced by a later "
+                                   "registration before the exit was reported and never resolves" % (mode, i, r))
     if case["kind"] == "real" and impl.get("timed_out"):
         return "count: timed out waiting for exit notifications of real children"
-    return None
+    return replaced_future
 
 
 def nontrivial(case, impl):
